@@ -193,6 +193,17 @@ class FsFaults:
         f = self.fault
         if f is None:
             return None
+        if f[0] == "multi":
+            # several faults in one run: the first one that applies to this operation
+            for sub in f[1]:
+                self.fault = sub
+                try:
+                    act = self.action(idx)
+                finally:
+                    self.fault = f
+                if act is not None:
+                    return act
+            return None
         if f[0] == "match":
             # ("match", "kind|kind", nth, action): the nth operation of one of these kinds, whatever its index
             kinds = f[1].split("|")
@@ -307,5 +318,6 @@ class FsFaults:
 
 
 SIMPLE_OPS = ("remove", "unlink", "replace", "rename", "chmod", "fchmod", "fchown", "chown", "fsync", "fdatasync",
-              "truncate", "ftruncate", "link", "symlink", "rmdir", "mkdir", "utime")
+              "truncate", "ftruncate", "link", "symlink", "rmdir", "mkdir", "utime") + \
+    tuple(n for n in ("sendfile", "copy_file_range", "splice") if hasattr(os, n))     # in-kernel data transfers (shutil.copyfile)
 ERRNOS = {"EACCES": errno.EACCES, "ENOSPC": errno.ENOSPC, "EIO": errno.EIO}
